@@ -5,20 +5,34 @@ import tempfile
 from harness import common as C
 
 
-def run_service_check(pid, tier, seed, *, rule, monitors, backends=('ram', 'sqlmem'), nseq_quick=60, nseq_thorough=700,
-                      length=(6, 22), compare_backends=False, known_matcher=None, extra=None, trusted_extra=(), profile=None):
-  from harness import svc, svcmon
+def run_service_check(pid, tier, seed, *, rule, trusted_extra=(), extra=None, **kw):
   rep = C.Report(pid, tier, seed)
   rep.rule = rule
-  rep.trusted = ['Coq 8.16.1 kernel + vm_compute', 'coq/Model/Service.v is a hand transcription of vizier_service.py and the '
-                 'two datastores, tied by trace-level correspondence (responses, datastore-call trace, final stored state)',
-                 'scripted Pythia policy (public PolicyFactory extension point)', 'proto shim / equinox stand-in',
-                 'sqlite and SQLAlchemy'] + list(trusted_extra)
+  rep.trusted = SVC_TRUSTED + list(trusted_extra)
   C.standard_proof_step(rep, pid)
-  broke = rep.proof_broken
-  concrete = False
   known = {f['id']: f for f in C.load_known() if f['property'] == pid}
   r = C.rng(seed, pid.lower())
+  broke, concrete = service_part(rep, pid, r, tier, known, **kw)
+  broke = ((rep.proof_broken or '') + ' ' + (broke or '')).strip() or None
+  if extra:
+    b2, c2 = extra(rep, tier, seed, known, r)
+    broke = ((broke or '') + ' ' + (b2 or '')).strip() or None
+    concrete = concrete or c2
+  C.settle_broken(rep, broke, concrete)
+  return rep.finish()
+
+
+SVC_TRUSTED = ['Coq 8.16.1 kernel + vm_compute', 'coq/Model/Service.v is a hand transcription of vizier_service.py and the '
+                 'two datastores, tied by trace-level correspondence (responses, datastore-call trace, final stored state)',
+                 'scripted Pythia policy (public PolicyFactory extension point)', 'proto shim / equinox stand-in',
+                 'sqlite and SQLAlchemy']
+
+
+def service_part(rep, pid, r, tier, known, *, monitors, backends=('ram', 'sqlmem'), nseq_quick=60, nseq_thorough=700,
+                 length=(6, 22), compare_backends=False, known_matcher=None, profile=None, tag='seq'):
+  from harness import svc, svcmon
+  broke = None
+  concrete = False
   nseq = nseq_quick if tier == 'quick' else nseq_thorough
   runs = []
   tmp = tempfile.mkdtemp(prefix='vz_', dir=C.VERIF + '/.scratch') if 'sqlfile' in backends else None
@@ -68,18 +82,13 @@ def run_service_check(pid, tier, seed, *, rule, monitors, backends=('ram', 'sqlm
               rep.violation('backends %s and %s diverge (response or stored data)' % (backends[0], be),
                             {'sequence': [s[0] for s in a and ref[0]][:j + 1], 'step': j, backends[0]: (a[1], a[3]), be: (b[1], b[3])})
               break
-    msg, bad = svc.correspond(rep, pid, 'seq', runs)
+    msg, bad = svc.correspond(rep, pid, tag, runs)
     if msg:
-      broke = (broke or '') + ' ' + msg
-    if extra:
-      b2, c2 = extra(rep, tier, seed, known, r)
-      broke = (broke or '') + (' ' + b2 if b2 else '') or None
-      concrete = concrete or c2
+      broke = msg
   finally:
     if tmp:
       shutil.rmtree(tmp, ignore_errors=True)
-  C.settle_broken(rep, broke, concrete)
-  return rep.finish()
+  return broke, concrete
 
 
 def wrap(mon3):
